@@ -18,3 +18,4 @@ pub mod mon_layout;
 pub mod mon_events;
 pub mod mon_compose;
 pub mod mon_nopanic;
+pub mod replay;
